@@ -415,3 +415,26 @@ func VH_C09_LoopRefs() {
 	}
 	symAssert(out == want, "loop-refers-to-the-enclosing-loop")
 }
+
+// ---- C09.literals: a string literal written in a block tag is the value it spells -----------------------
+// VH_C09_Literals: a literal of up to N characters over {a, SP, TAB, LF} (runs of blanks included)
+// is assigned, compared and iterated in block tags; the result equals the same value taken from the
+// context.
+func VH_C09_Literals() {
+	n := 1 + symChoice(symParam("N", 3))
+	lit := symStringIn(n, "a \t\n")
+	ctx := map[string]interface{}{"v": lit}
+	src := []string{
+		"{% set s = 'L' %}[{{ s }}]",
+		"{% if v == 'L' %}T{% else %}F{% endif %}",
+		"{% for c in 'L' %}{{ loop.index }}:{{ loop.revindex }}:{{ c }},{% endfor %}",
+		"{% if 'L' == v %}T{% elseif v %}E{% else %}F{% endif %}",
+		"{% set s = \"L\" ~ '|' %}[{{ s }}]",
+	}
+	k := symChoice(len(src))
+	out, err := vhR(vhReplace(src[k], "L", lit), ctx)
+	ref, rerr := vhR(vhReplace(vhReplace(src[k], "'L'", "v"), "\"L\"", "v"), ctx)
+	symCover("rendered")
+	symAssert(err == nil && rerr == nil, "renders")
+	symAssert(out == ref, "literal-in-block-tag-is-its-value")
+}
